@@ -9,7 +9,7 @@ import hashlib
 import tempfile
 import subprocess
 
-from . import rtok, extract, spec as specmod, gen as genmod
+from . import rtok, extract, spec as specmod, gen as genmod, vacuity
 from .extract import AnchorLost
 
 VERIF = os.path.dirname(os.path.dirname(os.path.abspath(__file__)))
@@ -107,6 +107,7 @@ class Generated:
         self.prelude_files = []
         self.items = []
         self.hash = None
+        self.monotone_injected = 0
 
 
 def scan_trusted(text, fname):
@@ -213,6 +214,8 @@ def assemble(repo=REPO, mutate_hook=None, only_units=None, canary=False, skip=()
                 G.prelude_files.append(fn)
                 if not fn.startswith('header') and not fn.startswith('lemma'):
                     G.trusted += scan_trusted(t, 'prelude/' + fn)
+                    t, nmono = vacuity.inject_monotone(t)
+                    G.monotone_injected += nmono
                 # forbid assume/admit anywhere
                 emit_text(t, None, 'prelude/' + fn)
 
@@ -327,11 +330,11 @@ def assemble(repo=REPO, mutate_hook=None, only_units=None, canary=False, skip=()
     return G
 
 
-def run_verus(G, workdir, rlimit=None, threads=None, extra=None, name='gen.rs'):
+def run_verus(G, workdir, rlimit=None, threads=None, extra=None, name='gen.rs', multiple_errors=40):
     path = os.path.join(workdir, name)
     with open(path, 'w') as f:
         f.write(G.text)
-    cmd = ['verus', path, '--output-json', '--time', '--multiple-errors', '40', '--triggers-mode', 'silent',
+    cmd = ['verus', path, '--output-json', '--time', '--multiple-errors', str(multiple_errors), '--triggers-mode', 'silent',
            '--num-threads', str(threads or min(16, os.cpu_count() or 4))]
     if rlimit:
         cmd += ['--rlimit', str(rlimit)]
